@@ -8,7 +8,7 @@ is a run-time activity and is not claimed.
 import ast
 
 from .. import astutil as A
-from ..fa import FA
+from ..fa import FA, log_call
 from .effects import Assume, call_atom
 
 FSDS = "storage_filesystem._FilesystemDataSource"
@@ -180,6 +180,36 @@ def _with_ancestors(fa, node):
     return out
 
 
+def _with_holds(fa, w, opencall):
+    """Does leaving the `with` statement `w` close the stream created by `opencall`: the call is (part of) one of
+    its context expressions, or the stream is entered into / registered with an exit stack that `w` binds
+    (`with ExitStack() as s: f = s.enter_context(open(...))`, `s.callback(f.close)`, `s.push(f)`)."""
+    for it in w.items:
+        if any(x is opencall for x in ast.walk(it.context_expr)):
+            return True
+    stacks = {it.optional_vars.id for it in w.items if isinstance(it.optional_vars, ast.Name)}
+    if not stacks:
+        return False
+    # names that hold the stream
+    p = fa.pm.get(opencall)
+    held = set()
+    if isinstance(p, (ast.Assign, ast.AnnAssign)) and p.value is opencall:
+        held = {t.id for t in (p.targets if isinstance(p, ast.Assign) else [p.target]) if isinstance(t, ast.Name)}
+    for c in fa.calls():
+        rv = A.call_recv(c)
+        if not (isinstance(rv, ast.Name) and rv.id in stacks and fa.inside(c, w)):
+            continue
+        if A.call_attr(c) in ("enter_context", "push", "callback", "push_async_exit", "enter_async_context"):
+            for a in c.args:
+                if any(x is opencall for x in ast.walk(a)):
+                    return True
+                if isinstance(a, ast.Name) and a.id in held:
+                    return True
+                if isinstance(a, ast.Attribute) and a.attr in ("close", "__exit__") and isinstance(a.value, ast.Name) and a.value.id in held:
+                    return True
+    return False
+
+
 def _output_order(ck, R):
     fo = FA(ck, FSDS + ".output")
     mk = [c for c in fo.calls("makedirs")] + [c for c in fo.calls("mkdir")]
@@ -189,8 +219,8 @@ def _output_order(ck, R):
     # publication of the pointer: a call of a method that writes it, or the pointer write itself when it is inlined
     pub_calls = [c for c in fo.calls() if A.call_attr(c) in writers and A.dotted(A.call_recv(c)) in ("self", "cls")]
     pub = pub_calls + wo["pointer"] + _atomic_publications(fo)
-    holds_object = lambda w: any(any(x is c for x in ast.walk(it.context_expr)) for it in w.items for c in wopen)
-    holds_pointer = lambda w: any(any(x is c for x in ast.walk(it.context_expr)) for it in w.items for c in wo["pointer"])
+    holds_object = lambda w: any(_with_holds(fo, w, c) for c in wopen)
+    holds_pointer = lambda w: any(_with_holds(fo, w, c) for c in wo["pointer"])
     # the statements that put bytes into the object (not the write of the pointer's own content)
     copy = [c for c in fo.calls("copyfileobj") + fo.calls("write") if not any(holds_pointer(w) for w in _with_ancestors(fo, c))]
     copy += [c for c in wopen if A.call_attr(c) in ONESHOT]
@@ -249,12 +279,38 @@ def _output_order(ck, R):
               "the published pointer does not designate the version just written", fo.where(p))
     wl = FA(ck, FSDS + "._write_non_versioned_link")
     wlo = write_opens(ck, wl)["pointer"]
-    wr = [c for c in wl.calls("write") if any(any(any(x is o for x in ast.walk(it.context_expr)) for it in w.items for o in wlo)
-                                               for w in _with_ancestors(wl, c))] or [c for c in wl.calls("write")]
-    wr += [c for c in wlo if A.call_attr(c) in ONESHOT]
-    okw = bool(wr) and all("call:" + OBJ_PATH in wl.deps(c.args[0]) for c in wr if c.args)
-    ck.ob(R, wl.key(None, "pointer-content"), okw, "pointer content is the versioned object path" if okw else
-          "the pointer file does not contain the versioned object path", wl.where())
+    # what is written into the pointer (directly, or into a staging file that is then renamed onto it): the argument
+    # of write / write_text, or what print(..., file=handle) prints
+    wr = [c for c in wl.calls("write") if any(any(_with_holds(wl, w, o) for o in wlo) for w in _with_ancestors(wl, c))] or \
+        [c for c in wl.calls("write") if (A.call_dotted(c) or "") != "os.write"]
+    wr += [c for c in wl.calls() if A.call_attr(c) in ONESHOT and c in ck.cg.fs_write_sites.get(wl.qual, []) and c not in wr]
+    contents = [(c.args[0], c, "") for c in wr if c.args]
+    for c in wl.calls("print"):
+        if A.kwarg(c, "file") is not None:
+            end = A.kwarg(c, "end")
+            tail = "\n" if end is None else (A.const_str(end) if A.const_str(end) is not None else "?")
+            contents += [(a, c, tail) for a in c.args[:1]]
+            if len(c.args) != 1:
+                contents.append((None, c, tail))
+    okw = bool(contents) and all(e is not None and "call:" + OBJ_PATH in wl.deps(e) for (e, c, _t) in contents)
+    why = "the pointer file does not contain the versioned object path"
+    if okw:
+        # ... and nothing but that path, unless the reader strips what surrounds it: the reader turns the whole file
+        # content into the path, so `path + "\n"` designates a file that does not exist
+        rl_ = FA(ck, FSDS + "._read_non_versioned_link")
+        strips = any(A.call_attr(c) in ("strip", "rstrip", "splitlines", "split") for c in rl_.calls())
+        for (e, c, tail) in contents:
+            try:
+                parts = A.str_parts(wl.expand(e, wl.nodes(c)[0])) if wl.nodes(c) else None
+            except Exception:  # noqa - an expression the expander cannot place
+                parts = None
+            extra = "".join(v for (k, v) in (parts or []) if k == "lit") + tail
+            n_expr = len([1 for (k, v) in (parts or []) if k == "expr"]) if parts is not None else 1
+            if n_expr != 1 or (extra and not (strips and not extra.strip())):
+                okw = False
+                why = "the pointer file holds more than the object path (%r around it) while the reader takes the whole content as the path: " \
+                      "every key then designates a file that does not exist and nothing is ever served from the store" % extra
+    ck.ob(R, wl.key(None, "pointer-content"), okw, "pointer content is the versioned object path" if okw else why, wl.where())
 
 
 def _same_value(fa, e1, n1, e2, n2):
@@ -273,6 +329,25 @@ def _same_value(fa, e1, n1, e2, n2):
     return False
 
 
+def _validator_helpers(ck, ex):
+    """{qual: FuncInfo} — helpers that are new w.r.t. the reference inventory, belong to the data source (or its module) and
+    are reached from exists_nonversioned: together with it they form the reader's validity test when part of that
+    test was extracted and the call sits where the front end cannot write the helper out (an operand of `and`, a
+    branch of a conditional expression)."""
+    from ..inline import new_functions
+    new = {fi.qual: fi for fi in new_functions(ck.repo)}
+    out = {}
+    stack = [ex.fi]
+    while stack:
+        f = stack.pop()
+        for (_call, cands, _how) in ck.cg.edges.get(f.qual, []):
+            for c in cands:
+                if c.qual in new and c.qual not in out and c.qual != ex.fi.qual and c.module is ex.fi.module and c.cls in (None, ex.fi.cls):
+                    out[c.qual] = c
+                    stack.append(c)
+    return out
+
+
 def check_pointer_trust(ck):
     R = "C08.R2"
     ck.rule(R, "pointers are never trusted half-written: either the pointer name is only ever the destination of an "
@@ -284,15 +359,24 @@ def check_pointer_trust(ck):
     renames = _atomic_publications(wl)
     atomic = not direct and bool(renames)
     ex = FA(ck, FSDS + ".exists_nonversioned")
-    rd = [c for c in ex.calls("_read_non_versioned_link")]
+    helpers = _validator_helpers(ck, ex)
+    callers_of = lambda q: {fi.qual for (fi, _c, cands) in ck.cg.call_sites_of(lambda c, cands: any(x.qual == q for x in cands))}
+    # a helper belongs to the validity test only if nothing else uses it
+    unit_quals = {ex.fi.qual} | {q for q in helpers if callers_of(q) <= ({ex.fi.qual} | set(helpers))}
+    unit = [ex] + [FA(ck, helpers[q]) for q in sorted(helpers) if q in unit_quals]
+    rd = [c for u in unit for c in u.calls("_read_non_versioned_link")]
     validated = False
     why = "exists_nonversioned does not read the pointer"
     if rd:
         # the value derived from the pointer content must be tested with is_file()
-        isf = [c for c in ex.calls("is_file") if "call:_read_non_versioned_link" in ex.deps(A.call_recv(c))]
-        isf += [c for c in ex.calls("isfile") if c.args and "call:_read_non_versioned_link" in ex.deps(c.args[0])]
-        weak = [c for c in ex.calls("exists") if A.call_recv(c) is not None and not (A.call_dotted(c) or "").startswith("os.path")
-                and "call:_read_non_versioned_link" in ex.deps(A.call_recv(c))]
+        isf, weak = [], []
+        for u in unit:
+            isf += [c for c in u.calls("is_file") if "call:_read_non_versioned_link" in u.deps(A.call_recv(c))]
+            isf += [c for c in u.calls("isfile") if c.args and "call:_read_non_versioned_link" in u.deps(c.args[0])]
+            weak += [c for c in u.calls("exists") + u.calls("lexists") if A.call_recv(c) is not None and not (A.call_dotted(c) or "").startswith("os.path")
+                     and "call:_read_non_versioned_link" in u.deps(A.call_recv(c))]
+            weak += [c for c in u.calls("exists") + u.calls("lexists") if (A.call_dotted(c) or "").startswith("os.path") and c.args
+                     and "call:_read_non_versioned_link" in u.deps(c.args[0])]
         validated = bool(isf) and not weak
         why = "the designated path is only tested with exists(): an empty or truncated pointer designates Path('') = '.', which exists" if weak else \
             "the designated path is never tested to be a regular file"
@@ -303,7 +387,7 @@ def check_pointer_trust(ck):
     # consumers of pointer content
     for (fi, call, cands) in ck.cg.call_sites_of(lambda c, cands: A.call_attr(c) == "_read_non_versioned_link"):
         f2 = FA(ck, fi)
-        if fi.name == "exists_nonversioned":
+        if fi.qual in unit_quals:
             continue
         if fi.name == "input_nonversioned":
             okc = any(A.call_attr(c) in ("_do_input", "FileIO", "open") for c in f2.calls())
@@ -317,8 +401,11 @@ def check_pointer_trust(ck):
                 # decided as: assuming the validity test answers False, the call is unreachable (whatever the
                 # shape of the test: guard clause, nested if, negation, conjunction with other conditions)
                 invalid = Assume(g, call_atom(("exists_nonversioned",), False))
-                tested = any(n.kind == "test" and n.id in g.cfg.reachable_nodes() and invalid.truth(n.ast, n.id) is not None for n in g.cfg.nodes)
-                okd = tested and not invalid.live(gcall)
+                # (the guard may also sit below statement level: `get(k) if exists(k) else ...`, `exists(k) and get(k)`)
+                from .c07 import expr_live, sub_conditions
+                tested = any(n.kind == "test" and n.id in g.cfg.reachable_nodes() and invalid.truth(n.ast, n.id) is not None for n in g.cfg.nodes) \
+                    or any(invalid.truth(t, i) is not None for t in sub_conditions(g) for i in g.nodes(t)[:1])
+                okd = tested and not expr_live(invalid, gcall)
                 ck.ob(R, g.key(gcall, "validated-before-use"), okd or atomic,
                       "get_versioned_key is reached only after a positive exists_nonversioned test" if okd else
                       "get_versioned_key is called without a dominating validity test of the pointer", g.where(gcall))
@@ -349,6 +436,12 @@ def _after_handler(fa, handler):
 def _valid_flag_is(fa, e, n, value, IN=None):
     """Is the leaf value an ExistingMementoResult(...) whose valid flag is the given constant (on the paths
     the definitions `IN` describe)?"""
+    if isinstance(e, ast.Name) and not fa.df.is_local(e.id) and isinstance(fa.fi.module.assigns.get(e.id), ast.Call):
+        # a module-level constant holding the answer
+        mv = fa.fi.module.assigns[e.id]
+        if A.call_attr(mv) == "ExistingMementoResult":
+            v = A.kwarg(mv, "valid_result") or (mv.args[1] if len(mv.args) >= 2 else None)
+            return isinstance(v, ast.Constant) and v.value is value
     if not (isinstance(e, ast.Call) and A.call_attr(e) == "ExistingMementoResult"):
         return False
     v = A.kwarg(e, "valid_result")
@@ -379,6 +472,9 @@ def _handler_appends_none(fa, handler, read_call):
                     if leaves and all(A.is_none(e) for (e, _) in leaves):
                         appends.append(i)
         if not appends:
+            if _slot_stays_none(fa, A0, hn, heads, read_call, loop):
+                ok = True
+                continue
             return False
         # without those appends, neither the loop head (next element), the exit nor a raise is reachable
         stops = set(appends)
@@ -390,6 +486,47 @@ def _handler_appends_none(fa, handler, read_call):
             return False
         ok = True
     return ok
+
+
+def _slot_stays_none(fa, A0, hn, heads, read_call, loop):
+    """The pre-allocated spelling of "append None": the answer list is created with one None per element
+    (`[None] * len(xs)`, `[None for _ in xs]`), the read is stored straight into its slot (`answers[i] = read(...)`),
+    and on the handler's way to the next element / the end nothing is stored into the list and nothing raises or
+    returns — so the slot of an unreadable element still holds None."""
+    st = fa.stmt_of(read_call)
+    if not (isinstance(st, ast.Assign) and st.value is read_call and len(st.targets) == 1 and isinstance(st.targets[0], ast.Subscript)
+            and isinstance(st.targets[0].value, ast.Name) and loop is not None):
+        return False
+    lst = st.targets[0].value.id
+
+    def all_none(e):
+        if isinstance(e, ast.BinOp) and isinstance(e.op, ast.Mult):
+            return any(isinstance(x, ast.List) and len(x.elts) == 1 and A.is_none(x.elts[0]) for x in (e.left, e.right))
+        if isinstance(e, ast.ListComp):
+            return A.is_none(e.elt) and not any(g.ifs for g in e.generators)
+        return False
+    defs = [d for i in fa.nodes(st) for d in fa.df.reaching(i, lst)]
+    if not defs or not all(d.kind == "assign" and d.value is not None and all_none(d.value) and not fa.inside(d.stmt or d.value, loop) for d in defs):
+        return False
+    r = fa.cfg.reach([hn], removed=heads)
+    for i in r:
+        nd = fa.cfg.node(i)
+        if nd.kind == "stmt" and isinstance(nd.ast, ast.Raise):
+            return False
+        if nd.kind == "stmt" and isinstance(nd.ast, ast.Return) and fa.inside(nd.ast, loop):
+            return False
+        if nd.kind == "stmt" and nd.ast is not None:
+            for x in A.walk_local(nd.ast):
+                if isinstance(x, ast.Subscript) and isinstance(x.ctx, (ast.Store, ast.Del)) and isinstance(x.value, ast.Name) and x.value.id == lst:
+                    return False
+                if isinstance(x, ast.Call) and isinstance(x.func, ast.Attribute) and isinstance(x.func.value, ast.Name) and x.func.value.id == lst \
+                        and x.func.attr not in ("count", "index", "copy"):
+                    return False
+    # ... and that list is what the function returns
+    rets = [(rt, i) for rt in fa.returns() if rt.value is not None for i in fa.nodes(rt)]
+    return bool(rets) and all(isinstance(x, ast.Name) and x.id == lst or (isinstance(x, ast.Call) and A.call_attr(x) in ("list", "tuple") and len(x.args) == 1
+                                                                           and isinstance(x.args[0], ast.Name) and x.args[0].id == lst)
+                              for (rt, i) in rets for x in [rt.value])
 
 
 def _is_returned_element(fa, A0, call):
@@ -444,6 +581,213 @@ def _is_valid_flag(fa, x, node_id, depth=5):
     return False
 
 
+# What a caught OSError is guaranteed to carry.  errno / strerror / filename are filled in only when the raising
+# site passed them: an error reported by write() / flush() / close() (ENOSPC, EFBIG in the middle of a file) has
+# no file name, and an `IOError("text")` raised by the repository itself (the partition-merge signal) has none
+# of the three — they are then None.
+EXC_OPTIONAL = ("filename", "filename2", "errno", "strerror")
+EXC_ALWAYS = EXC_OPTIONAL + ("args", "with_traceback", "add_note", "__class__", "__traceback__", "__cause__", "__context__",
+                             "__suppress_context__", "__notes__", "__str__", "__repr__", "__doc__", "__dict__", "__reduce__")
+NONE_TOLERANT_CALLS = ("str", "repr", "format", "print", "bool", "type", "isinstance", "id", "hash", "get", "ascii")
+_NUMERIC_SPEC = __import__("re").compile(r"%[-+ #0-9.*]*[diouxXeEfFgGc]")
+
+
+def _exc_detail(fa, h, x, at):
+    """`x` (evaluated at `at`, inside handler `h`) as a detail of the caught exception, through local temporaries and
+    aliases of the exception: ('optional', text) for errno / strerror / filename (may be None), ('absent', text) for
+    an attribute an OSError need not have, ('index', text) for an element of its args; else None."""
+    if h.name is None or not isinstance(x, (ast.Name, ast.Attribute, ast.Subscript)) or not isinstance(getattr(x, "ctx", None), ast.Load):
+        return None
+    try:
+        e = fa.expand(x, at)
+    except Exception:  # noqa - an expression the expander cannot place
+        e = x
+    is_exc = lambda v: isinstance(v, ast.Name) and v.id == h.name
+    if isinstance(e, ast.Attribute) and is_exc(e.value):
+        if e.attr in EXC_OPTIONAL:
+            return ("optional", A.norm(e))
+        if e.attr not in EXC_ALWAYS:
+            return ("absent", A.norm(e))
+    if isinstance(e, ast.Subscript) and isinstance(e.value, ast.Attribute) and e.value.attr == "args" and is_exc(e.value.value) \
+            and not isinstance(e.slice, ast.Slice):
+        return ("index", A.norm(e))
+    return None
+
+
+def _none_intolerant_use(fa, x):
+    """How the value of expression `x` is consumed, when that fails for None: a description, or None when the use is
+    harmless for None (formatting with {} / %s / an f-string, logging, str(), tests, comparisons by identity or
+    equality, assignment, being returned)."""
+    st = fa.stmt_of(x)
+    if isinstance(st, ast.Assert) and (x is st.test or fa.inside(x, st.test)):
+        return "`%s` asserts it" % A.short(st, 50)
+    n = x
+    while True:
+        p = fa.pm.get(n)
+        if p is None or isinstance(p, ast.stmt):
+            return None
+        if isinstance(p, ast.Attribute) and p.value is n:
+            return "`%s` is read from it" % A.short(p, 50)
+        if isinstance(p, ast.Subscript):
+            return "`%s` subscripts %s it" % (A.short(p, 50), "with" if p.slice is n else "into")
+        if isinstance(p, ast.Starred):
+            return "`%s` unpacks it" % A.short(p, 50)
+        if isinstance(p, ast.keyword):
+            n = p
+            continue
+        if isinstance(p, ast.Call):
+            if p.func is n:
+                return "`%s` calls it" % A.short(p, 50)
+            nm = A.call_attr(p)
+            if log_call(p) or nm in NONE_TOLERANT_CALLS or (nm == "format" and isinstance(p.func, ast.Attribute)) \
+                    or (nm == "getattr" and len(p.args) == 3):
+                return None
+            return "`%s` is given it as an argument" % A.short(p, 60)
+        if isinstance(p, ast.FormattedValue):
+            if p.format_spec is not None and A.norm(p.format_spec) not in ("''", 'f""', "f''", ""):
+                return "the format specification of `%s` does not accept None" % A.short(p, 40)
+            return None
+        if isinstance(p, ast.BinOp):
+            if isinstance(p.op, ast.Mod) and p.right is n or (isinstance(p.op, ast.Mod) and isinstance(p.right, ast.Tuple) and fa.inside(x, p.right)):
+                tpl = A.const_str(p.left)
+                if tpl is not None and not _NUMERIC_SPEC.search(tpl):
+                    return None
+                return "`%s` formats it with a conversion that does not accept None" % A.short(p, 50)
+            return "`%s` computes with it" % A.short(p, 50)
+        if isinstance(p, ast.UnaryOp):
+            if isinstance(p.op, ast.Not):
+                return None
+            return "`%s` computes with it" % A.short(p, 50)
+        if isinstance(p, ast.Compare):
+            if all(isinstance(o, (ast.Is, ast.IsNot, ast.Eq, ast.NotEq)) for o in p.ops):
+                return None
+            if all(isinstance(o, (ast.In, ast.NotIn)) for o in p.ops) and p.left is n:
+                return None
+            return "`%s` orders / searches it" % A.short(p, 50)
+        if isinstance(p, ast.BoolOp):
+            if p.values[-1] is not n:
+                return None            # used for its truth value
+            n = p
+            continue
+        if isinstance(p, ast.IfExp):
+            if p.test is n:
+                return None
+            n = p
+            continue
+        if isinstance(p, (ast.Tuple, ast.List, ast.Set, ast.Dict, ast.NamedExpr, ast.JoinedStr)):
+            n = p
+            continue
+        if isinstance(p, (ast.comprehension, ast.ListComp, ast.SetComp, ast.GeneratorExp, ast.DictComp)):
+            if isinstance(p, ast.comprehension) and p.iter is n:
+                return "`%s` iterates over it" % A.short(p.iter, 50)
+            return None
+        return None
+
+
+def _handler_cannot_fail(ck, R, fa, h, site, what):
+    """The handler that absorbs the I/O error is itself total for EVERY OSError the storage layer can raise: it does
+    not depend on details the error need not carry (an operation that fails for None on errno / strerror / filename, an
+    attribute or args element that may not be there), unless a test of that very detail excludes the case; and it
+    performs no storage operation that the same fault makes fail again outside a handler of its own."""
+    from .c07 import expr_live
+    from .effects import reach_effects
+    faults = []
+    for st in h.body:
+        for x in A.walk_local(st):
+            ids = fa.nodes(x) if isinstance(x, (ast.Name, ast.Attribute, ast.Subscript)) else []
+            if not ids:
+                continue
+            d = _exc_detail(fa, h, x, ids[0])
+            if d is None:
+                continue
+            kind, text = d
+            par = fa.pm.get(x)
+            if isinstance(par, ast.Attribute) and par.value is x and _exc_detail(fa, h, par, ids[0]) is not None:
+                continue               # part of a longer detail expression that is judged itself
+            if kind == "optional":
+                how = _none_intolerant_use(fa, x)
+                if how is None:
+                    continue
+                why = "%s, but `%s` is None unless the failing call supplied it (write / flush / close and the repository's own IOError(text) do not)" % (how, text)
+            elif kind == "absent":
+                if isinstance(par, ast.Call) and A.call_attr(par) in ("hasattr", "getattr"):
+                    continue
+                why = "`%s` is not an attribute every OSError has" % text
+            else:
+                why = "`%s` fails when the error was built with fewer arguments (IOError(text) has one)" % text
+            base = text.split("[")[0]
+
+            def atom(e, text=text, base=base, kind=kind):
+                t = A.norm(e)
+                if t == text:
+                    return False                       # the detail is None / falsy
+                if isinstance(e, ast.Compare) and len(e.ops) == 1 and A.norm(e.left) == text:
+                    if isinstance(e.ops[0], ast.Is) and A.is_none(e.comparators[0]):
+                        return True
+                    if isinstance(e.ops[0], ast.Eq) and A.is_none(e.comparators[0]):
+                        return True
+                if isinstance(e, ast.Call) and A.call_attr(e) == "isinstance" and e.args and A.norm(e.args[0]) == text:
+                    return False
+                if isinstance(e, ast.Call) and A.call_attr(e) == "hasattr" and len(e.args) == 2 and kind == "absent" \
+                        and "%s.%s" % (A.norm(e.args[0]), A.const_str(e.args[1])) == text:
+                    return False
+                if kind == "index" and isinstance(e, ast.Compare) and ("len(%s)" % base) in t:
+                    return False                       # whatever the length test is, assume it does not hold
+                return None
+            if not expr_live(Assume(fa, atom), x):
+                continue                               # a test of that very detail excludes the case
+            faults.append((x, why))
+    # storage operations inside the handler (a roll-back, a marker file, a second attempt) fail under the same fault
+    for st in h.body:
+        for c in A.walk_local(st):
+            if not isinstance(c, ast.Call) or log_call(c):
+                continue
+            own = [t for t in _try_around(fa, c) if fa.inside(t, h) and any(_handler_covers_oserror(h2) for h2 in t.handlers)]
+            if own:
+                continue
+            fs = []
+            if c in ck.cg.fs_write_sites.get(fa.qual, []):
+                fs = [(fa.fi, c, fa.qual)]
+            else:
+                try:
+                    cands, _how = ck.cg.resolve(c, fa.fi)
+                except Exception:  # noqa - unresolvable call: no effect known
+                    cands = []
+                for cand in cands:
+                    fs += reach_effects(ck, cand)[0]
+            if fs:
+                faults.append((c, "`%s` writes to the store again (%s) outside a handler of its own; the fault that brought control here "
+                                  "makes that fail too" % (A.short(c, 50), fs[0][2] if isinstance(fs[0][2], str) else fs[0][0].qual)))
+    ok = not faults
+    ck.ob(R, fa.key(site, "handler-cannot-fail"), ok,
+          "the handler that absorbs the I/O error does not depend on optional details of the error and writes nothing" if ok else
+          "the handler that absorbs an I/O error %s can raise itself, so the error is not absorbed and the caller gets an exception instead of "
+          "the value: %s" % (what, "; ".join(m for (_, m) in faults[:2])), fa.where(faults[0][0]) if faults else fa.where(h))
+
+
+def _is_oserror_class(ck, name) -> bool:
+    """Is the exception class called `name` OSError or one of its subclasses: a builtin (IOError, FileNotFoundError,
+    PermissionError, ... — the interpreter's exception hierarchy) or a class of the repository deriving from one."""
+    import builtins
+    b = getattr(builtins, name or "", None)
+    if isinstance(b, type) and issubclass(b, BaseException):
+        return issubclass(b, OSError)
+    seen = set()
+    todo = [c for c in ck.repo.all_classes() if c.name == name]
+    while todo:
+        c = todo.pop()
+        if c.qual in seen:
+            continue
+        seen.add(c.qual)
+        for bx in c.base_exprs:
+            bn = bx.split(".")[-1]
+            bb = getattr(builtins, bn, None)
+            if isinstance(bb, type) and issubclass(bb, OSError):
+                return True
+        todo += ck.repo.bases(c)
+    return False
+
+
 def check_recovery(ck):
     R = "C08.R3"
     ck.rule(R, "absorb and recover: I/O errors are absorbed around memoize in the local runner, around the read in "
@@ -473,6 +817,7 @@ def check_recovery(ck):
         ck.ob(R, rl.key(c, "absorb-write-error"), ok, "an I/O error while memoizing is logged and swallowed; the computed result is still returned" if ok else
               "an I/O error raised by memoize escapes (or is re-raised): the caller gets an exception instead of the computed value", rl.where(c))
         if hs:
+            _handler_cannot_fail(ck, R, rl, hs[0], c, "while memoizing")
             # after the handler the normal result paths remain reachable
             hn = [n.id for n in rl.cfg.nodes if n.kind == "except" and n.ast is hs[0]]
             okc = bool(hn) and rl.cfg.exit in rl.cfg.reach(hn)
@@ -489,6 +834,7 @@ def check_recovery(ck):
             # handler or a result variable returned after the try), and nothing is re-raised
             vals, raises = _after_handler(pe, hs[0])
             ok = bool(vals) and not raises and all(_valid_flag_is(pe, e, n, False, IN) for (e, n, IN) in vals)
+            _handler_cannot_fail(ck, R, pe, hs[0], c, "while reading a memoized result")
         ck.ob(R, pe.key(c, "read-error-means-invalid"), ok, "an I/O error while reading means 'not valid' (the caller recomputes)" if ok else
               "an I/O error while reading a memoized result is not turned into valid_result=False", pe.where(c))
     gm = FA(ck, "storage_base.DataSourceMetadataSource.get_mementos")
@@ -512,6 +858,7 @@ def check_recovery(ck):
                         appended = [a for a in gm.calls("append") if len(a.args) == 1 and gm.nodes(a)
                                     and any(e is call for (e, _) in A0.cases(a.args[0], gm.nodes(a)[0], gm.df.IN))]
                         ok = ok and (bool(appended) or _is_returned_element(gm, A0, call))
+                        _handler_cannot_fail(ck, R, fh, hs[0], c, "while reading a memento")
                     ck.ob(R, fh.key(c, "unreadable-means-absent"), ok, "an unreadable memento counts as absent" if ok else
                           "an I/O error while reading a memento escapes get_mementos", fh.where(c))
                     rm = None
@@ -522,16 +869,21 @@ def check_recovery(ck):
         ok = False
         if hs:
             ok = _handler_appends_none(gm, hs[0], c)
+            _handler_cannot_fail(ck, R, gm, hs[0], c, "while reading a memento")
         ck.ob(R, gm.key(c, "unreadable-means-absent"), ok, "an unreadable memento counts as absent" if ok else
               "an I/O error while reading a memento escapes get_mementos", gm.where(c))
         # json damage (truncated file) is a ValueError: not required by the design table, noted
     ps = FA(ck, "storage_base.DefaultCodec.PicklePartitionStrategy.store")
+    A0p = Assume(ps, lambda e: None)
     for r in ps.stmts(ast.Raise):
-        if r.exc is not None and isinstance(r.exc, ast.Call):
-            nm = A.call_attr(r.exc)
-            ok = nm in ("IOError", "OSError")
-            ck.ob(R, ps.key(r, "io-signal"), ok, "merge failure is signalled as an I/O error (absorbed by the runner)" if ok else
-                  "merge failure is signalled as %s, which the runner does not absorb" % nm, ps.where(r))
+        if r.exc is None or not ps.nodes(r):
+            continue
+        for (leaf, _n) in A0p.cases(r.exc, ps.nodes(r)[0], ps.df.IN):
+            if isinstance(leaf, ast.Call) or (isinstance(leaf, (ast.Name, ast.Attribute)) and (A.dotted(leaf) or "").split(".")[-1][:1].isupper()):
+                nm = A.call_attr(leaf) if isinstance(leaf, ast.Call) else A.dotted(leaf).split(".")[-1]
+                ok = _is_oserror_class(ck, nm)
+                ck.ob(R, ps.key(r, "io-signal"), ok, "merge failure is signalled as an I/O error (absorbed by the runner)" if ok else
+                      "merge failure is signalled as %s, which the runner does not absorb" % nm, ps.where(r))
     # the runner's second use of process_existing_memento treats 'not valid' as 'compute'
     for qual in ("runner_local.memento_run_local", "runner_local.LocalRunnerBackend.batch_run"):
         f = FA(ck, qual)
@@ -540,6 +892,198 @@ def check_recovery(ck):
                  and any(_is_valid_flag(f, x, n.id) for x in ast.walk(n.ast))]
         ck.ob(R, f.key(None, "valid-flag-tested"), bool(tests), "the valid flag decides between serve and compute" if tests else
               "%s does not branch on valid_result" % qual, f.where())
+
+
+def _requires_every(fa, sources):
+    """Does the function answer True only when EVERY validity answer obtained from `sources` (method names) is
+    True?  Decided on the answers, not on the spelling: `all(<answers>)`, `False not in <answers>`, or a loop over
+    the answers (or over the keys, asking per key) in which an invalid element leads to `return False` on every
+    path, the positive answer being given only after that loop.  -> (ok, reason)"""
+    A0 = Assume(fa, lambda e: None)
+    SRC = {"call:" + s_ for s_ in sources}
+
+    def from_src(e, n):
+        try:
+            return bool(SRC & fa.df.deps(e, n))
+        except Exception:  # noqa - an expression without a node
+            return False
+
+    def is_false(e):
+        return isinstance(e, ast.Constant) and e.value is False
+
+    # loops in which an invalid element forces the answer False
+    strict_heads = []
+    strict_loops = []
+    for lp in fa.stmts(ast.For):
+        heads = [h for h in fa.cfg.nodes_of(lp) if h in fa.cfg.reachable_nodes()]
+        if not heads:
+            continue
+        tnames = {x.id for x in ast.walk(lp.target) if isinstance(x, ast.Name)}
+        over_answers = from_src(lp.iter, heads[0])
+
+        def atom(e, tnames=tnames, over_answers=over_answers):
+            if over_answers and isinstance(e, ast.Name) and e.id in tnames:
+                return False
+            if isinstance(e, ast.Call) and A.call_attr(e) in sources and not over_answers:
+                return False
+            return None
+        asm = Assume(fa, atom)
+        hit = any(n.kind == "test" and fa.inside(n.ast, lp) and asm.truth(n.ast, n.id) is not None for n in fa.cfg.nodes if n.ast is not None) or \
+            any(n.kind == "stmt" and isinstance(n.ast, (ast.Assign, ast.AugAssign)) and fa.inside(n.ast, lp) and asm.truth(n.ast.value, n.id) is not None
+                for n in fa.cfg.nodes if n.ast is not None)
+        if not hit:
+            continue
+        ok = True
+        for h in heads:
+            starts = [d for (d, l) in fa.cfg.succ[h] if l == "T"]
+            # this iteration and whatever follows the loop, without entering the loop head again
+            IN = asm.flow({st_: set(fa.df.IN[st_]) for st_ in starts}, removed={h})
+            region = set(IN)
+            back = [n_ for n_ in region if any(d == h and asm.edge_ok(n_, d, l) for (d, l) in fa.cfg.succ[n_])]
+            if back:
+                # the next element is looked at.  That is still a decision if this element left a flag False that no
+                # later element can raise again (every assignment to it in the loop is `flag and ...` or False): what
+                # follows the loop is then judged with the flag as this iteration left it
+                seed = set()
+                for n_ in back:
+                    gen = fa.df.gen.get(n_, [])
+                    killed = {d.name for d in gen if d.kind != "aug"}
+                    seed |= {d for d in IN[n_] if d.name not in killed} | set(gen)
+                lowered = {d.name for d in seed if d.kind in ("assign", "aug") and d.value is not None and d.node in region
+                           and fa.inside(d.stmt if d.stmt is not None else d.value, lp) and asm.truth(d.value, d.node) is False
+                           and (d.kind == "assign" or isinstance(getattr(d.stmt, "op", None), ast.BitAnd))}
+
+                def monotone(name):
+                    for st_ in fa.stmts((ast.Assign, ast.AugAssign, ast.AnnAssign)):
+                        if not fa.inside(st_, lp):
+                            continue
+                        tg = st_.targets if isinstance(st_, ast.Assign) else [st_.target]
+                        if not any(isinstance(t, ast.Name) and t.id == name for t in tg):
+                            continue
+                        v = st_.value
+                        if isinstance(st_, ast.AugAssign):
+                            if not isinstance(st_.op, ast.BitAnd):
+                                return False
+                            continue
+                        if is_false(v):
+                            continue
+                        if isinstance(v, ast.BoolOp) and isinstance(v.op, ast.And) and any(isinstance(x, ast.Name) and x.id == name for x in v.values):
+                            continue
+                        return False
+                    return True
+                sticky = {nm for nm in lowered if monotone(nm)}
+                if not sticky:
+                    ok = False
+                else:
+                    seed = {d for d in seed if d.name not in sticky or (d.kind in ("assign", "aug") and d.node in region and asm.truth(d.value, d.node) is False)}
+                    after = asm.flow({h: seed}, removed=set(starts))
+                    for i in after:
+                        nd = fa.cfg.node(i)
+                        if nd.kind == "stmt" and isinstance(nd.ast, ast.Return):
+                            leaves = asm.cases(nd.ast.value, i, after) if nd.ast.value is not None else []
+                            if not leaves or not all(is_false(x) or asm.truth(x, m) is False or (isinstance(x, ast.Name) and x.id in sticky and
+                                                                                                  all(d.name != x.id or d in seed for d in after.get(m, ())))
+                                                     for (x, m) in leaves):
+                                ok = False
+            for i in region:
+                nd = fa.cfg.node(i)
+                if nd.kind == "stmt" and isinstance(nd.ast, ast.Return):
+                    leaves = asm.cases(nd.ast.value, i, IN) if nd.ast.value is not None else []
+                    if not leaves or not all(is_false(x) or asm.truth(x, m) is False for (x, m) in leaves):
+                        ok = False
+        if ok:
+            strict_heads += heads
+            strict_loops.append(lp)
+    seen_source = False
+    for r in fa.returns():
+        for i in fa.nodes(r):
+            for (leaf, n) in (A0.cases(r.value, i, fa.df.IN) if r.value is not None else [(None, i)]):
+                if leaf is not None and is_false(leaf):
+                    continue
+                if isinstance(leaf, ast.Call) and isinstance(leaf.func, ast.Name) and leaf.func.id == "all" and len(leaf.args) == 1 and from_src(leaf.args[0], n):
+                    seen_source = True
+                    continue
+                neg_in = leaf
+                if isinstance(neg_in, ast.UnaryOp) and isinstance(neg_in.op, ast.Not) and isinstance(neg_in.operand, ast.Compare) \
+                        and len(neg_in.operand.ops) == 1 and isinstance(neg_in.operand.ops[0], ast.In):
+                    neg_in = ast.Compare(left=neg_in.operand.left, ops=[ast.NotIn()], comparators=neg_in.operand.comparators)
+                if isinstance(neg_in, ast.Compare) and len(neg_in.ops) == 1 and isinstance(neg_in.ops[0], ast.NotIn) and is_false(neg_in.left) \
+                        and from_src(neg_in.comparators[0], n):
+                    seen_source = True
+                    continue
+                if strict_heads and fa.cfg.must_pass(strict_heads, i) and leaf is not None:
+                    # after a loop in which an invalid element forces False: the initial True, or the flag as the loop left it
+                    in_strict = lambda x: x is not None and any(fa.inside(x, lp_) for lp_ in strict_loops)
+                    if isinstance(leaf, ast.Constant) and leaf.value is True:
+                        seen_source = True
+                        continue
+                    if in_strict(fa.cfg.node(n).ast) and not fa.inside(r, fa.enclosing(fa.cfg.node(n).ast, ast.For) or r):
+                        seen_source = True
+                        continue
+                    if isinstance(leaf, ast.Name):
+                        ds = fa.df.reaching(n, leaf.id)
+                        if ds and all(d.kind in ("assign", "aug") and (in_strict(d.stmt) or (isinstance(d.value, ast.Constant) and d.value.value is True)) for d in ds):
+                            seen_source = True
+                            continue
+                weak = leaf is None or not from_src(leaf, n) or isinstance(leaf, (ast.Constant, ast.Subscript, ast.BoolOp)) or (
+                    isinstance(leaf, ast.Call) and isinstance(leaf.func, ast.Name) and leaf.func.id in ("any", "bool", "len")) or (
+                    isinstance(leaf, ast.Compare) and isinstance(leaf.ops[0], ast.In))
+                if not weak:
+                    from ..loader import AnalysisError
+                    raise AnalysisError("%s: cannot decide whether the answer `%s` requires every pointer to be valid" % (fa.qual, A.short(leaf, 60)))
+                return False, "it can answer `%s`, which does not require every pointer to be valid" % A.short(leaf, 50)
+    return seen_source, "its answer does not derive from the validated existence test"
+
+
+NO_FILE_NAMES = ("FileNotFoundError", "OSError", "IOError", "EnvironmentError", "Exception", "BaseException")
+
+
+class _ReadFails(Assume):
+    """The world without a pointer file, for the ask-forgiveness spelling of the first test: reading the pointer
+    raises FileNotFoundError, so a statement that reads it never completes normally and control continues in a handler
+    that covers that error (`try: p = read(key)` / `except FileNotFoundError: answer = False`)."""
+
+    def _reads(self, node_id):
+        """does the statement at this node read the pointer (in the world the plain assumptions describe: a read
+        in the branch of a conditional expression that the missing pointer rules out is not evaluated)?"""
+        from .c07 import sub_live
+        if node_id not in self._rd:
+            nd = self.fa.cfg.node(node_id)
+            plain = self._plain = getattr(self, "_plain", None) or Assume(self.fa, self.atom)
+            self._rd[node_id] = nd.ast is not None and nd.kind in ("stmt", "test", "with", "for") and any(
+                isinstance(x, ast.Call) and A.call_attr(x) == "_read_non_versioned_link" and sub_live(plain, x, node_id)
+                for x in A.walk_local(nd.ast))
+        return self._rd[node_id]
+
+    _rd = None
+
+    def __init__(self, fa, atom):
+        super().__init__(fa, atom)
+        self._rd = {}
+
+    @staticmethod
+    def _covers(h):
+        if h.type is None:
+            return True
+        ts = h.type.elts if isinstance(h.type, ast.Tuple) else [h.type]
+        return any(A.norm(t).split(".")[-1] in NO_FILE_NAMES for t in ts)
+
+    def guarded_reads(self):
+        """reads of the pointer whose failure is caught by a handler covering FileNotFoundError"""
+        out = []
+        for n in self.fa.cfg.nodes:
+            if n.id in self.fa.cfg.reachable_nodes() and self._reads(n.id):
+                if any(l == "exc" and self.fa.cfg.node(d).kind == "except" and self._covers(self.fa.cfg.node(d).ast) for (d, l) in self.fa.cfg.succ[n.id]):
+                    out.append(n.id)
+        return out
+
+    def edge_ok(self, s, d, l):
+        if self._reads(s):
+            if l != "exc":
+                return False
+            dn = self.fa.cfg.node(d)
+            return dn.kind != "except" or self._covers(dn.ast)
+        return super().edge_ok(s, d, l)
 
 
 def check_readers_validate(ck):
@@ -559,6 +1103,35 @@ def check_readers_validate(ck):
             return None
         sub = e.args[0] if (A.call_dotted(e) or "").startswith("os.path") and e.args else A.call_recv(e)
         return _strip_path_wrappers(sub) if sub is not None else None
+
+    helpers = _validator_helpers(ck, ex)
+    hnames = {fi.name: fi for fi in helpers.values()}
+
+    def helper_of(e):
+        """the extracted part of the test that call `e` (an expanded copy) designates"""
+        if isinstance(e, ast.Call) and A.call_attr(e) in hnames and (isinstance(e.func, ast.Name) or A.dotted(A.call_recv(e)) in ("self", "cls", ex.fi.cls.name if ex.fi.cls else "")):
+            return hnames[A.call_attr(e)]
+        return None
+
+    def answers(fa, base, depth=2):
+        """The truth value every answer of `fa` has under the assumption `base` (an atom function), helpers included:
+        True / False, or None when the answers differ or are unknown."""
+        def atom(e):
+            v = base(e)
+            if v is None and depth > 0:
+                h = helper_of(e)
+                if h is not None and h.qual != fa.qual:
+                    return answers(FA(ck, h), base, depth - 1)
+            return v
+        asm = (_ReadFails if base is no_pointer else Assume)(fa, atom)
+        if base is no_pointer and asm.guarded_reads():
+            hits["ptr"] += 1
+        vals = set()
+        for r in fa.returns():
+            for i in asm.live(r):
+                for (leaf, n) in (asm.cases(r.value, i) if r.value is not None else [(None, i)]):
+                    vals.add(None if leaf is None else asm.truth(leaf, n))
+        return vals.pop() if len(vals) == 1 else None
 
     def is_ptr(e):
         sub = subject(e)
@@ -582,27 +1155,21 @@ def check_readers_validate(ck):
             return False
         return None
 
-    def always_false(asm):
-        rets = [r for r in ex.returns() if asm.live(r)]
-        res = bool(rets)
-        for r in rets:
-            for i in asm.live(r):
-                for (leaf, n) in (asm.cases(r.value, i) if r.value is not None else [(None, i)]):
-                    if leaf is None or asm.truth(leaf, n) is not False:
-                        res = False
-        return res
-
-    ok = always_false(Assume(ex, no_pointer)) and always_false(Assume(ex, bad_target)) and hits["ptr"] > 0 and hits["target"] > 0 and bool(rd)
+    rd = rd or [c for q in sorted(helpers) for c in FA(ck, helpers[q]).calls("_read_non_versioned_link")]
+    ok = answers(ex, no_pointer) is False and answers(ex, bad_target) is False and hits["ptr"] > 0 and hits["target"] > 0 and bool(rd)
     ck.ob(R, ex.key(None, "two-level"), ok, "tests the pointer, then the designated path" if ok else
           "exists_nonversioned no longer checks both the pointer and the path it designates", ex.where())
     ae = FA(ck, FSDS + ".all_exist_nonversioned")
-    oka = bool(ae.calls("exists_nonversioned"))
+    # called per key, or handed to map() / a helper as a bound method
+    oka = bool(ae.calls("exists_nonversioned")) or any(
+        isinstance(x, ast.Attribute) and x.attr == "exists_nonversioned" and isinstance(x.ctx, ast.Load) and A.dotted(x.value) in ("self", "cls")
+        for x in A.walk_body(ae.node))
     ck.ob(R, ae.key(None), oka, "bulk existence goes through exists_nonversioned" if oka else
           "all_exist_nonversioned bypasses exists_nonversioned", ae.where())
     am = FA(ck, "storage_base.DataSourceMetadataSource.all_mementos_exist")
-    okm = bool(am.calls("all_exist_nonversioned")) and bool(am.calls("all"))
+    okm, whym = _requires_every(am, ("all_exist_nonversioned", "exists_nonversioned"))
     ck.ob(R, am.key(None), okm, "memento presence = all pointers valid" if okm else
-          "all_mementos_exist does not require every memento pointer to be valid", am.where())
+          "all_mementos_exist does not require every memento pointer to be valid: " + whym, am.where())
     im = FA(ck, "storage_base.StorageBackendBase.is_memoized")
     oki = any(A.call_attr(c) == "all_mementos_exist" for c in im.calls())
     ck.ob(R, im.key(None), oki, "is_memoized falls back to the validated presence test" if oki else
